@@ -1052,7 +1052,16 @@ func ruleAutoMTLSGate(c *Ctx) {
 				c.R.Hold("R-TLS/automtls", p.Pos(getN.Ast), f.Name, "client certificate variable holds the environment value", "single assignment, from os.Getenv(PLUGIN_CLIENT_CERT)", true)
 			}
 			seen := g.ReachAfter(getN, func(m *Node) bool { return m == assignN }, cut)
-			if _, bad := seen[serveN]; bad {
+			// only feasible paths count (an inlined helper records its failure in err
+			// and the caller panics on it further down)
+			var afterGet []*Node
+			for _, e := range getN.Succs {
+				if !cut(e) {
+					afterGet = append(afterGet, e.To)
+				}
+			}
+			feas := p.FeasibleReach(f, afterGet, func(m *Node) bool { return m == assignN }, cut)
+			if _, bad := seen[serveN]; bad && feas[serveN] {
 				c.R.Violate("R-TLS/automtls", p.Pos(assignN.Ast), f.Name, "server AutoMTLS is not conditional on anything but the certificate being present",
 					"with PLUGIN_CLIENT_CERT set and no TLS provider there is a path on which the plugin starts serving without the mutual-TLS configuration: it then serves plaintext to anybody", p.PathTo(seen, serveN))
 			} else {
